@@ -8,6 +8,8 @@ import (
 	"net"
 	"runtime"
 	"strings"
+	"sync"
+	"sync/atomic"
 
 	"github.com/icon-project/goloop/common/log"
 	"github.com/icon-project/goloop/module"
@@ -328,4 +330,103 @@ func (n *VerifC33Node) OnControl(hasProto bool, ver byte, sub uint16) string {
 		return "close"
 	}
 	return "control-unknown"
+}
+
+// ---- concurrent stress (schedule sampling) ----
+
+// verifC33Barrier releases g goroutines as simultaneously as possible: every
+// goroutine announces itself and then spins on a flag (a closed channel wakes
+// the waiters one after the other, which hides narrow races).
+type verifC33Barrier struct {
+	arrived int32
+	release int32
+}
+
+func (b *verifC33Barrier) wait() {
+	atomic.AddInt32(&b.arrived, 1)
+	spin := runtime.GOMAXPROCS(0) > 1
+	for i := 0; atomic.LoadInt32(&b.release) == 0; i++ {
+		if !spin || i&0x3ff == 0x3ff {
+			runtime.Gosched()
+		}
+	}
+}
+
+func (b *verifC33Barrier) open(g int) {
+	for atomic.LoadInt32(&b.arrived) < int32(g) {
+		runtime.Gosched()
+	}
+	atomic.StoreInt32(&b.release, 1)
+}
+
+// VerifC33ConcurrentPut releases g goroutines together, each calling the real
+// Put with its own Packet object carrying the same hash; returns how many
+// were told "new".
+func VerifC33ConcurrentPut(p *PacketPool, hash uint64, g int) int {
+	var accepted int32
+	var done sync.WaitGroup
+	bar := &verifC33Barrier{}
+	done.Add(g)
+	for i := 0; i < g; i++ {
+		go func() {
+			defer done.Done()
+			pkt := &Packet{hashOfPacket: hash}
+			bar.wait()
+			if p.Put(pkt) {
+				atomic.AddInt32(&accepted, 1)
+			}
+		}()
+	}
+	bar.open(g)
+	done.Wait()
+	return int(accepted)
+}
+
+// OnPacketConcurrent: the same flooded packet (dest any, ttl 0, source src)
+// arrives at the same time from g different relaying peers, each in its own
+// goroutine calling the real onPacket (as each Peer.receiveRoutine does).
+// Returns the number of invocations of the application callback.
+func (n *VerifC33Node) OnPacketConcurrent(g int, src []byte, hash uint64) int {
+	var delivered int32
+	n.p2p.onPacketCbFuncs[verifC33Proto.Uint16()] = func(pkt *Packet, p *Peer) {
+		atomic.AddInt32(&delivered, 1)
+	}
+	defer func() {
+		n.p2p.onPacketCbFuncs[verifC33Proto.Uint16()] = func(pkt *Packet, p *Peer) {
+			n.delivered++
+			n.last, n.lastPeer = pkt, p
+		}
+	}()
+	peers := make([]*Peer, g)
+	for i := range peers {
+		c1, c2 := net.Pipe()
+		defer c2.Close()
+		p := newPeer(c1, true, "", n.p2p.logger)
+		id := make([]byte, peerIDSize)
+		id[0], id[1], id[19] = 0xc3, 0xcc, byte(i+1)
+		p.setID(NewPeerID(id))
+		p.setConnType(p2pConnTypeOther)
+		pis := newProtocolInfos()
+		pis.Add(verifC33Proto)
+		p.setProtocolInfos(pis)
+		peers[i] = p
+		defer p.Close("verif")
+	}
+	srcID := NewPeerID(src)
+	var done sync.WaitGroup
+	bar := &verifC33Barrier{}
+	done.Add(g)
+	for i := 0; i < g; i++ {
+		p := peers[i]
+		go func() {
+			defer done.Done()
+			pkt := &Packet{protocol: verifC33Proto, subProtocol: module.ProtocolInfo(0x0100), src: srcID,
+				dest: p2pDestAny, ttl: 0, hashOfPacket: hash, sender: p.ID()}
+			bar.wait()
+			n.p2p.onPacket(pkt, p)
+		}()
+	}
+	bar.open(g)
+	done.Wait()
+	return int(delivered)
 }
